@@ -108,6 +108,9 @@ class Conn:
         self.slot = slot
         self.gen = gen
         self.name = 'c%d.%d' % (slot, gen)
+        # the id a client gives with its request says what it is doing, not who it is: slots 0 and 2 (and every later
+        # connection of a slot) give the same one, slot 1 another
+        self.idname = 'update: task.alg%d' % (slot % 2)
         self.proto = comms.Worker(pc.IPV4('client%d' % slot, 1000 + gen))
         self.transport = pc.FakeTransport('client%d' % slot, 1000 + gen)
         self.proto.transport = self.transport
@@ -214,7 +217,7 @@ class World:
             self.slots[k] = c
             self.all.append(c)
             c.acquired = True
-            self._data(c, _request(Func.acquire, c.name))
+            self._data(c, _request(Func.acquire, c.idname))
         elif kind == 'poll':
             must_grant = (
                 self.holder is None
